@@ -111,6 +111,8 @@ class RunContext:
     tier: str
     seed: int
     replay: Optional[str] = None
+    regressions: list = field(default_factory=list)  # (path, Violation) of committed replays that fail again
+    regressions_ok: int = 0
 
     @property
     def quick(self) -> bool:
@@ -348,6 +350,11 @@ def conclude(ctx: RunContext, res: Result, rule: str, assumptions: List[str], t0
     """Print KNOWN-FINDING / VIOLATION lines, write evidence, return exit code."""
     known_open, _fixed = load_known()
     new = []
+    for path, v in ctx.regressions:
+        print(f"VIOLATION property={ctx.prop} replay={path}", flush=True)
+        print(f"  key={v.key} (committed regression replay fails again)\n  what={v.what}", flush=True)
+    res.count("regression-replays-passed", ctx.regressions_ok)
+    res.evaluations += ctx.regressions_ok + len(ctx.regressions)
     for f in res.findings:
         if (ctx.prop, f.key) in known_open:
             print(f"KNOWN-FINDING: property={ctx.prop} key={f.key} {known_open[(ctx.prop, f.key)]}", flush=True)
@@ -361,11 +368,11 @@ def conclude(ctx: RunContext, res: Result, rule: str, assumptions: List[str], t0
         # the generators must produce non-trivial cases; otherwise the run says nothing
         write_evidence(ctx, res, rule, level, assumptions, time.time() - t0, len(new))
         raise HarnessError(f"{ctx.prop}: only {len(res.shapes)} distinct non-trivial cases were generated")
-    write_evidence(ctx, res, rule, level, assumptions, time.time() - t0, len(new))
+    write_evidence(ctx, res, rule, level, assumptions, time.time() - t0, len(new) + len(ctx.regressions))
     print(
         f"{ctx.prop} tier={ctx.tier} seed={ctx.seed} evaluations={res.evaluations} "
-        f"distinct_nontrivial={len(res.shapes)} violations={len(new)} known={len(res.findings) - len(new)} "
+        f"distinct_nontrivial={len(res.shapes)} violations={len(new) + len(ctx.regressions)} known={len(res.findings) - len(new)} "
         f"wall={time.time() - t0:.1f}s",
         flush=True,
     )
-    return 1 if new else 0
+    return 1 if (new or ctx.regressions) else 0
